@@ -294,6 +294,29 @@ impl<'a> Querier for WorldQuerier<'a> {
     }
 }
 
+/// The runtime validates what a contract reports (as wasmd and cw-multi-test do): a response with an empty
+/// attribute key or value, a reserved key or a too short event type fails the call.
+pub fn validate_response(resp: &Response) -> Result<(), String> {
+    for a in resp.attributes.iter().chain(resp.events.iter().flat_map(|e| e.attributes.iter())) {
+        let (k, v) = (a.key.trim(), a.value.trim());
+        if k.is_empty() {
+            return Err(format!("Empty attribute key. Value: {v}"));
+        }
+        if v.is_empty() {
+            return Err(format!("Empty attribute value. Key: {k}"));
+        }
+        if k.starts_with('_') {
+            return Err(format!("Attribute key starts with reserved prefix _: {k}"));
+        }
+    }
+    for e in &resp.events {
+        if e.ty.trim().len() < 2 {
+            return Err(format!("Event type too short: {}", e.ty));
+        }
+    }
+    Ok(())
+}
+
 impl World {
     pub fn new() -> Self {
         Self::default()
@@ -557,6 +580,7 @@ impl World {
             let data = if w.dispatch {
                 w.process_response(contract, resp, 0, &mut log)?
             } else {
+                validate_response(&resp)?;
                 resp.data.clone()
             };
             Ok((data, top))
@@ -675,25 +699,7 @@ impl World {
         depth: u32,
         log: &mut Vec<Dispatched>,
     ) -> Result<Option<Binary>, String> {
-        // the runtime validates what a contract reports (as wasmd and cw-multi-test do): a response with an
-        // empty attribute key or value, a reserved key or a too short event type fails the call
-        for a in resp.attributes.iter().chain(resp.events.iter().flat_map(|e| e.attributes.iter())) {
-            let (k, v) = (a.key.trim(), a.value.trim());
-            if k.is_empty() {
-                return Err(format!("Empty attribute key. Value: {v}"));
-            }
-            if v.is_empty() {
-                return Err(format!("Empty attribute value. Key: {k}"));
-            }
-            if k.starts_with('_') {
-                return Err(format!("Attribute key starts with reserved prefix _: {k}"));
-            }
-        }
-        for e in &resp.events {
-            if e.ty.trim().len() < 2 {
-                return Err(format!("Event type too short: {}", e.ty));
-            }
-        }
+        validate_response(&resp)?;
         let mut data = resp.data;
         for sub in resp.messages {
             let d = self.execute_submsg(contract, sub, depth, log)?;
